@@ -71,6 +71,19 @@ pub const TARGETS: &[FnTarget] = &[
     FnTarget { file: "compiler.rs", owner: Some("Parser"), name: "throw_statement", lean: "throw_statement", havoc: &[], ignore_cfg_features: &[] },
     FnTarget { file: "compiler.rs", owner: Some("Parser"), name: "while_statement", lean: "while_statement", havoc: &[], ignore_cfg_features: &[] },
     FnTarget { file: "compiler.rs", owner: Some("Parser"), name: "if_statement", lean: "if_statement", havoc: &[], ignore_cfg_features: &[] },
+    FnTarget { file: "compiler.rs", owner: Some("Parser"), name: "for_statement", lean: "for_statement", havoc: &[], ignore_cfg_features: &[] },
+    FnTarget { file: "compiler.rs", owner: Some("Parser"), name: "and", lean: "parse_and", havoc: &[], ignore_cfg_features: &[] },
+    FnTarget { file: "compiler.rs", owner: Some("Parser"), name: "or", lean: "parse_or", havoc: &[], ignore_cfg_features: &[] },
+    FnTarget { file: "compiler.rs", owner: Some("Parser"), name: "binary", lean: "parse_binary", havoc: &[], ignore_cfg_features: &[] },
+    FnTarget { file: "compiler.rs", owner: Some("Parser"), name: "unary", lean: "parse_unary", havoc: &[], ignore_cfg_features: &[] },
+    FnTarget { file: "compiler.rs", owner: Some("Parser"), name: "parse_precedence", lean: "parse_precedence", havoc: &[], ignore_cfg_features: &[] },
+    FnTarget { file: "compiler.rs", owner: Some("Parser"), name: "var_declaration", lean: "var_declaration", havoc: &[], ignore_cfg_features: &[] },
+    FnTarget { file: "compiler.rs", owner: Some("Parser"), name: "expression_statement", lean: "expression_statement", havoc: &[], ignore_cfg_features: &[] },
+    FnTarget { file: "compiler.rs", owner: Some("Parser"), name: "end_scope", lean: "end_scope", havoc: &[], ignore_cfg_features: &[] },
+    FnTarget { file: "compiler.rs", owner: Some("Parser"), name: "define_variable", lean: "define_variable", havoc: &[], ignore_cfg_features: &[] },
+    FnTarget { file: "compiler.rs", owner: Some("Parser"), name: "dotdot", lean: "parse_dotdot", havoc: &[], ignore_cfg_features: &[] },
+    FnTarget { file: "compiler.rs", owner: Some("Parser"), name: "block", lean: "parse_block", havoc: &[], ignore_cfg_features: &[] },
+    FnTarget { file: "compiler.rs", owner: Some("Parser"), name: "begin_scope", lean: "begin_scope", havoc: &[], ignore_cfg_features: &[] },
 ];
 
 pub struct FnBodies {
@@ -167,6 +180,26 @@ fn translate_one(srcs: &[Src], db: &TypeDb, consts: &BTreeMap<String, i128>, t: 
             Some(o) => format!("{}::{}", o, t.name),
             None => t.name.to_string(),
         };
+        // an associated function of the parser whose first parameter is `s: &mut Parser`: its body is read with `s` renamed to `self`
+        let parser_as_s = owner.as_deref() == Some("Parser")
+            && matches!(sig.inputs.first(), Some(syn::FnArg::Typed(pt)) if compact(&toks(&*pt.pat)) == "s" && compact(&toks(&*pt.ty)).replace(" ", "") == "&mutParser");
+        let renamed_block;
+        let block: &syn::Block = if parser_as_s {
+            struct Rename;
+            impl syn::visit_mut::VisitMut for Rename {
+                fn visit_ident_mut(&mut self, i: &mut syn::Ident) {
+                    if i == "s" {
+                        *i = syn::Ident::new("self", i.span());
+                    }
+                }
+            }
+            let mut b = block.clone();
+            syn::visit_mut::VisitMut::visit_block_mut(&mut Rename, &mut b);
+            renamed_block = b;
+            &renamed_block
+        } else {
+            block
+        };
         let callee_snapshot = acc.callees.clone();
         let mut cx = Cx {
             db,
@@ -238,6 +271,10 @@ fn translate_one(srcs: &[Src], db: &TypeDb, consts: &BTreeMap<String, i128>, t: 
                     if cx.vm_mode && ty == LT::Struct("ObjClosure".to_string()) {
                         // a closure handed to the call mechanism: (slots its function reserves, first instruction, the closure as a value)
                         ty = LT::ClosureRec;
+                    }
+                    if n == "s" && parser_as_s {
+                        // `fn binary(s: &mut Parser, ..)`: the parse functions of the rule table take the parser as `s` (read as `self`)
+                        continue;
                     }
                     if matches!(ty, LT::Struct(_)) {
                         // an object parameter: its fields are read as places `<param>.<field>` (inputs of the Lean function)
@@ -611,6 +648,44 @@ fn new_cx<'a>(
     }
 }
 
+/// `RULES[kind as usize].precedence` as a function of the token kind (entry i of the array literal belongs to variant i of TokenKind).
+fn rule_precedence_table(srcs: &[Src], db: &TypeDb) -> R<String> {
+    let src = match srcs.iter().find(|s| s.name == "compiler.rs") {
+        Some(s) => s,
+        None => return unsup("compiler.rs", "const RULES", "file not found"),
+    };
+    let c = src.ast.items.iter().find_map(|it| match it {
+        syn::Item::Const(c) if c.ident == "RULES" => Some(c),
+        _ => None,
+    });
+    let elems = match c.map(|c| &*c.expr) {
+        Some(Expr::Array(a)) => &a.elems,
+        _ => return unsup("compiler.rs", "const RULES", "not an array literal"),
+    };
+    let kinds = match db.enums.get("TokenKind") {
+        Some(v) if v.len() == 1 => &v[0].variants,
+        _ => return unsup("scanner.rs", "TokenKind", "enum not found"),
+    };
+    if kinds.len() != elems.len() {
+        return unsup("compiler.rs", "const RULES", "length differs from the number of token kinds");
+    }
+    let mut out = String::from("\n/-- `RULES[kind as usize].precedence` (compiler.rs), entry by entry. -/\ndef rule_precedence : TokenKind → Precedence\n");
+    for (k, e) in kinds.iter().zip(elems.iter()) {
+        let prec = match e {
+            Expr::Struct(st) => st.fields.iter().find_map(|f| match (&f.member, &f.expr) {
+                (syn::Member::Named(n), Expr::Path(p)) if n == "precedence" => p.path.segments.last().map(|s| s.ident.to_string()),
+                _ => None,
+            }),
+            _ => None,
+        };
+        match prec {
+            Some(p) => out.push_str(&format!("  | .{} => .{}\n", lean_ident(&k.name), lean_ident(&p))),
+            None => return unsup("compiler.rs", "const RULES", "entry without a `precedence: Precedence::X` field"),
+        }
+    }
+    Ok(out)
+}
+
 pub fn translate(srcs: &[Src], db: &TypeDb, limits: &crate::tables::Limits) -> R<FnBodies> {
     let mut consts: BTreeMap<String, i128> = BTreeMap::new();
     for (n, v, _) in &limits.entries {
@@ -644,7 +719,12 @@ pub fn translate(srcs: &[Src], db: &TypeDb, limits: &crate::tables::Limits) -> R
     ));
     text.push_str("import Yarel.Model.RustSem\n\nnamespace Yarel.Gen.Fns\nopen Yarel\nset_option linter.unusedVariables false\n");
     for e in &enums {
-        text.push_str(&enum_decl(db, e));
+        if !e.starts_with('@') {
+            text.push_str(&enum_decl(db, e));
+        }
+    }
+    if enums.contains("@rule_precedence") {
+        text.push_str(&rule_precedence_table(srcs, db)?);
     }
     text.push_str(&defs);
     text.push_str(&format!(
